@@ -36,6 +36,7 @@ type c14Scenario struct {
 	Restart   string      `json:"redundant_start,omitempty"` // "", "Start", "StartWithVal": called again on the running target
 	RestartD  int         `json:"redundant_start_delay_yields,omitempty"`
 	LateStart int         `json:"target_started_after_n_yields,omitempty"` // callers may queue requests before the target runs
+	Gated     bool        `json:"callers_wait_for_IsStarted,omitempty"`    // StartWithVal runs concurrently with callers that poll IsStarted()
 	Callers   []c14Caller `json:"callers"`
 
 	h      *Hist
@@ -63,6 +64,12 @@ func genC14(t *simrt.Tape, tier string) Scenario {
 	sc.IOHandler = t.Bool(1, 2)
 	if !sc.StartVal && t.Bool(1, 4) {
 		sc.LateStart = 1 + t.Choose(12)
+	}
+	if sc.StartVal && t.Bool(1, 2) {
+		// the callers are already running and wait for target.IsStarted() before their first request;
+		// StartWithVal is called concurrently: its value must still reach the first YieldRef
+		sc.Gated = true
+		sc.LateStart = 1 + t.Choose(8)
 	}
 	if sc.LateStart == 0 && t.Bool(1, 3) {
 		// starting an already started coroutine again must change nothing
@@ -150,7 +157,11 @@ func (sc *c14Scenario) Run(s *simrt.Sim) {
 			for i := 0; i < sc.LateStart; i++ {
 				s.YieldHard()
 			}
-			h.Do("late-starter", "Start", nil, func() (interface{}, error) { target.Start(); return nil, nil })
+			if sc.Gated {
+				h.Do("late-starter", "StartWithVal", sc.v0, func() (interface{}, error) { target.StartWithVal(sc.v0); return nil, nil })
+			} else {
+				h.Do("late-starter", "Start", nil, func() (interface{}, error) { target.Start(); return nil, nil })
+			}
 		})
 	} else {
 		if sc.StartVal {
@@ -173,6 +184,11 @@ func (sc *c14Scenario) Run(s *simrt.Sim) {
 		name := fmt.Sprintf("caller%d", ci)
 		body := func(self *fpgo.CorDef[int]) int {
 			last := 0
+			if sc.Gated {
+				for !target.IsStarted() {
+					s.Sleep(time.Microsecond) // polling with a virtual pause: a spinning thread must not starve the starter
+				}
+			}
 			for si, st := range c.Steps {
 				x := (ci+1)*1000 + si
 				if st == "YieldFrom" {
